@@ -10,7 +10,9 @@
        array-with-scalar operator [c] does to ONE element [a] of an array of dtype [d] (None = NumPy
        raises), [dsem c d] is the result dtype (None = NumPy raises whatever the values are).  Any
        functions are allowed, dtype-changing ones included.  The rows come from an abstract row reader
-       [rows : item -> option (list (list A))] (C01's subject);
+       [rows : item -> option (list (list A))] (C01's subject).  An array carries its dtype AND its
+       column count, so that a block of 0 rows (an empty row selection) still has a shape and a dtype
+       to be compared: _apply_ops runs on it like on any other block;
    (3) derivation histories: a functional store of readers (each reader = its own op list), and a
        HEAP-level model of _append_op in which op lists are mutable objects at locations: copy.copy
        aliases the parent's list, list(...) allocates a fresh one, append mutates in place.  The variant
